@@ -1,6 +1,7 @@
 package checks
 
 import (
+	"crypto/x509"
 	"encoding/json"
 	"fmt"
 	"math/rand"
@@ -292,6 +293,44 @@ func C02(c *vk.Ctx) {
 		c.Infra("the validator-level part was replayed on %d cells only: it would be vacuous", hubWalks)
 	}
 	c.Set("transitions", trans)
+	// the issuer is not at hand: the chain that is handed over lacks it (the TLS stack verified through another path), or holds
+	// another CA. No request can be built, nobody is asked - which is "no responder supplies an authentic answer": the strict
+	// instance denies a certificate that names http responders, the lenient one does not, whatever the responders would have said.
+	for _, first := range []string{"good", "revoked"} {
+		for shape := 0; shape < 2; shape++ {
+			w := newOcspWorld(ocspCfg(true, 0, "absent", []string{first}, []string{"good"}), c.Seed*37+int64(shape))
+			bare := [][]*x509.Certificate{{w.leaves["cA"].Cert}}
+			if shape == 1 {
+				bare = [][]*x509.Certificate{{w.leaves["cA"].Cert, w.stranger.Cert}}
+			}
+			for _, v := range []string{"v1", "v2"} { // v1 strict, v2 lenient
+				verdict, errText := "accept", ""
+				func() {
+					defer func() {
+						if p := recover(); p != nil {
+							verdict, errText = "panic", fmt.Sprint(p)
+						}
+					}()
+					st, err := w.checkers[v].IsRevoked(w.leaves["cA"].Cert, bare)
+					if err != nil {
+						verdict, errText = "error", err.Error()
+					} else if st != nil && st.Revoked {
+						verdict = "revoked"
+					}
+				}()
+				c.Eval(fmt.Sprintf("issuer-not-at-hand|%s|%d|%s", first, shape, v))
+				walks++
+				rep := map[string]any{"responder_would_say": first, "chain": []string{"leaf only", "leaf + unrelated CA"}[shape], "strict": v == "v1", "verdict": verdict, "err": errText}
+				switch {
+				case v == "v1" && verdict == "accept":
+					c.Violation("strict-accepted-without-answer:issuer-not-at-hand", "ocsp_aia_strict is on, the certificate names an http responder, its issuer certificate is not in the chain handed over: nobody was asked and the certificate was accepted", rep)
+				case v == "v2" && verdict != "accept":
+					c.Violation("lenient-denied:issuer-not-at-hand", fmt.Sprintf("ocsp_aia_strict is off and nobody could be asked, but the lookup ended with %s %s", verdict, errText), rep)
+				}
+			}
+			w.close()
+		}
+	}
 	// many lookups truly in parallel (no gate): cA's responder says good, cB's says revoked, nothing is cached. The specification's
 	// answer for every single lookup is the one it yields alone (OcspFlight.tla: OwnAnswerOnly); a revoked certificate accepted, or
 	// a lenient lookup denied, under this load is the property failing for a particular interleaving.
@@ -369,7 +408,7 @@ func predC05(c *vk.Ctx, o *ocspObs) {
 	}
 }
 
-var c05NoAnswer = []string{"stranger", "strangerEmbedded", "ownCert", "ownCertBare", "ownCertAsIssuer", "delegNoEku", "delegNoEkuBare", "delegNoEkuAsIssuer", "otherDelegBare", "otherDelegEmbedded", "sibling", "otherSerial", "errStatus", "http500", "garbage", "wrongContent"}
+var c05NoAnswer = []string{"stranger", "strangerEmbedded", "lookalikeEmbedded", "ownCert", "ownCertBare", "ownCertAsIssuer", "delegNoEku", "delegNoEkuBare", "delegNoEkuAsIssuer", "otherDelegBare", "otherDelegEmbedded", "sibling", "otherSerial", "errStatus", "http500", "garbage", "wrongContent"}
 
 // C05 — OCSP authenticity.
 func C05(c *vk.Ctx) {
